@@ -296,7 +296,21 @@ HeaderProtection_apply(HeaderProtectionObject *self, PyObject *args)
     if (!PyArg_ParseTuple(args, "y#y#", &header, &header_len, &payload, &payload_len))
         return NULL;
 
+    if (header_len < 1) {
+        PyErr_SetString(CryptoError, "Invalid header length");
+        return NULL;
+    }
+
     int pn_length = (header[0] & 0x03) + 1;
+    if (header_len < 1 + pn_length) {
+        PyErr_SetString(CryptoError, "Invalid header length");
+        return NULL;
+    }
+    if (payload_len < PACKET_NUMBER_LENGTH_MAX - pn_length + SAMPLE_LENGTH ||
+        header_len + payload_len > PACKET_LENGTH_MAX) {
+        PyErr_SetString(CryptoError, "Invalid payload length");
+        return NULL;
+    }
     int pn_offset = header_len - pn_length;
 
     res = HeaderProtection_mask(self, payload + PACKET_NUMBER_LENGTH_MAX - pn_length);
@@ -327,6 +341,14 @@ HeaderProtection_remove(HeaderProtectionObject *self, PyObject *args)
 
     if (!PyArg_ParseTuple(args, "y#I", &packet, &packet_len, &pn_offset))
         return NULL;
+
+    /* the sample must lie inside the packet, the copied header inside the buffer */
+    if (pn_offset < 0 ||
+        pn_offset > PACKET_LENGTH_MAX - PACKET_NUMBER_LENGTH_MAX ||
+        pn_offset + PACKET_NUMBER_LENGTH_MAX + SAMPLE_LENGTH > packet_len) {
+        PyErr_SetString(CryptoError, "Invalid packet number offset");
+        return NULL;
+    }
 
     res = HeaderProtection_mask(self, packet + pn_offset + PACKET_NUMBER_LENGTH_MAX);
     CHECK_RESULT(res != 0);
